@@ -509,11 +509,17 @@ func (x *runner) do(e event) (line, obs string) {
 			j = inflight
 		}
 		x.acked += j
-		sn := uint32(0)
+		// the frame acknowledges through una only: its own sn is below una (already gone).
+		// With nothing acknowledged yet there is no such sn (an ACK for sn 0 would acknowledge
+		// segment 0 individually, which the model's `open 0` does not do): a WINS frame runs
+		// the same una processing and notifications and acknowledges nothing.
+		cmd, sn := byte(kcp.IKCP_CMD_ACK), uint32(0)
 		if x.acked > 0 {
 			sn = x.acked - 1
+		} else {
+			cmd = kcp.IKCP_CMD_WINS
 		}
-		x.mc.ch <- dgram{seg(conv, kcp.IKCP_CMD_ACK, sn, x.acked, nil), x.remote}
+		x.mc.ch <- dgram{seg(conv, cmd, sn, x.acked, nil), x.remote}
 		return fmt.Sprintf("open %d", j), obs
 	case "pump":
 		if x.s == nil {
